@@ -125,6 +125,9 @@ static int validate_refname(const char *name)
 			return REFTABLE_REFNAME_ERROR;
 		}
 		if (!next) {
+			/* the last component */
+			if (!strcmp(name, ".") || !strcmp(name, ".."))
+				return REFTABLE_REFNAME_ERROR;
 			return 0;
 		}
 		if (next - name == 0 || (next - name == 1 && *name == '.') ||
